@@ -344,9 +344,9 @@ def _case_worker(task):
     rng = random.Random(f"{seed}:{idx}")
     with warnings.catch_warnings():
         warnings.simplefilter("ignore")
-        feat = {"custom": True, "generic": True}
+        feat = {"custom": True, "generic": True, "func_if": True, "ml": True}
         if mode == "naming":  # no version adaptation: every name is predictable
-            feat = {"mixed": False, "rmax": False, "custom": True, "generic": True}
+            feat = {"mixed": False, "rmax": False, "custom": True, "generic": True, "func_if": True, "ml": True}
         g = L.Gen(rng, feat)
         spec = g.gen_spec()
         st, m = L.build_spec(spec)
